@@ -8,21 +8,27 @@ How: ONE clang run over a generated translation unit (`#include` of the headers 
 template instantiations) with `-Xclang -ast-dump=json -Xclang -ast-dump-filter=osmium`; the typed AST
 gives the integer width / signedness of every sub-expression and every implicit conversion.  Callees,
 constructors, enumerators and constexpr variables are found through their declaration ids and translated
-recursively (x2l_tr.py, x2l_ex.py); anything outside the subset raises `Unsupported` naming file:line —
+recursively (x2l_tr.py, x2l_ex.py, x2l_st.py); anything outside the subset raises `Unsupported` naming file:line —
 nothing is approximated silently.
 
-Subset: function / method / constructor bodies made of CompoundStmt, DeclStmt of initialised locals,
-ReturnStmt, IfStmt(/else), NullStmt; expressions: integer / bool / char literals, integer-valued floating
-literals, ParenExpr, ConditionalOperator, BinaryOperator (+ - * / % < <= > >= == != && || & | ^ << >>),
-UnaryOperator (! - ~ +), DeclRefExpr to parameters / locals / enumerators / constexpr variables, member
-reads (`this->m`, `obj.m`, std::pair first/second), implicit + explicit casts (LValueToRValue, NoOp,
-IntegralCast, IntegralToBoolean, IntegralToFloating, FloatingToIntegral, derived-to-base), calls of other
-translatable osmium functions / methods / overloaded operators / constructors (copy + move = identity),
-std::abs / min / max / minmax on integers, `size()` of a std::vector / std::string member (an opaque value).
-Record types become Lean structures with the members that are in the subset.  Besides whole functions a
-target can be the initialiser of a named local (`local=`) or the condition of the k-th `if` (`cond=`) of a
-function that is otherwise outside the subset: the expression becomes a function of its free variables
-(ordered by declaration position).
+Subset (expressions, x2l_ex.py): integer / bool / char literals, integer-valued floating literals, ParenExpr,
+ConditionalOperator, BinaryOperator (+ - * / % < <= > >= == != && || & | ^ << >>), UnaryOperator (! - ~ +),
+DeclRefExpr to parameters / locals / enumerators / constexpr variables, member reads (`this->m`, `obj.m`, std::pair
+first/second), implicit + explicit casts (LValueToRValue, NoOp, IntegralCast — also enum <-> underlying type —,
+IntegralToBoolean, IntegralToFloating, FloatingToIntegral, derived-to-base), calls of other translatable osmium
+functions / methods / overloaded operators / constructors (copy + move = identity), `T{..}` aggregates, std::abs / min /
+max / minmax on integers, `std::numeric_limits<T>::max/min/lowest()`, `sizeof(scalar type)`, `size()` of a
+std::vector / std::string member (an opaque value), `osmium::const_tie(..)` / `std::tie(..)` compared with `<` / `==`.
+Statements (x2l_st.py — the IMPERATIVE subset, see its docstring): compound, initialised locals, if, return, throw,
+switch with fall-through and break, assignment statements to locals and to members of `*this` (=, op=, ++, --,
+std::swap), calls of functions with effects in statement positions, while / for loops over integers.  A function
+that writes members, throws, loops or calls such a function is emitted as a state transformer
+`f [fuel] [self] args : CxxSem.Outcome σ ρ`; every other function as `f [self] args : ρ`.
+Record types become Lean structures with the members that are in the subset.  Besides whole functions a target
+can be the initialiser of a named local (`local=`), the condition of the k-th `if` (`cond=`) or the k-th loop
+(`loop=`) of a function that is otherwise outside the subset: it becomes a function of its free variables (ordered
+by declaration position); `opaque=[callee]` turns the value of `this->callee()` (const noexcept, no arguments)
+into an extra parameter.
 
 Semantics: lean/Osmium/Model/CxxSem.lean.  Each definition `f` comes with `f_defined` (no undefined
 behaviour: signed overflow, shift amount, division by zero, abs(MIN), double -> int out of range; plus
@@ -38,7 +44,7 @@ sys.path.insert(0, os.path.dirname(os.path.abspath(__file__)))
 import vlib  # noqa: E402
 from x2l_ast import Index, Sources, Unsupported, is_expr, load_objects  # noqa: E402
 from x2l_tr import Env, Ty  # noqa: E402
-from x2l_ex import FullTranslator  # noqa: E402
+from x2l_st import ImpTranslator  # noqa: E402
 
 GEN = os.path.join(vlib.LEAN, 'Osmium', 'Generated', 'Src.lean')
 WORK = os.path.join(vlib.BUILD, 'x2l')
@@ -47,17 +53,30 @@ HEADERS = [
     'osmium/memory/item.hpp', 'osmium/memory/buffer.hpp', 'osmium/osm/object_comparisons.hpp',
     'osmium/osm/location.hpp', 'osmium/index/id_set.hpp', 'osmium/index/map/flex_mem.hpp',
     'osmium/storage/item_stash.hpp', 'osmium/osm/timestamp.hpp', 'osmium/area/detail/node_ref_segment.hpp',
-    'osmium/geom/tile.hpp',
+    'osmium/geom/tile.hpp', 'osmium/handler/check_order.hpp', 'osmium/util/delta.hpp', 'osmium/osm/item_type.hpp',
+    'osmium/osm/object.hpp', 'osmium/index/relations_map.hpp', 'osmium/relations/members_database.hpp',
+    'osmium/io/detail/pbf_output_format.hpp', 'osmium/io/detail/opl_parser_functions.hpp', 'osmium/io/detail/string_util.hpp',
 ]
 INSTANTIATE = [
     'template class osmium::index::IdSetDense<unsigned long>;',
     'template class osmium::index::IdSetDense<unsigned int>;',
     'template class osmium::index::map::FlexMem<unsigned long, osmium::Location>;',
+    'template class osmium::util::DeltaEncode<long, long>;',
+    'template class osmium::util::DeltaEncode<unsigned int, long>;',
+    'template class osmium::util::DeltaEncode<unsigned int, int>;',
+    'template class osmium::util::DeltaEncode<int, int>;',
+    'template class osmium::util::DeltaDecode<long, long>;',
+    # RelationsMapIndex::for_each is a member template: one instantiation to look at
+    'namespace x2l_inst { inline void f(const osmium::index::RelationsMapIndex& ix) { ix.for_each(0, [](osmium::unsigned_object_id_type) {}); } }',
 ]
 FLEX = 'osmium::index::map::FlexMem<unsigned long, osmium::Location>'
 DENSE64 = 'osmium::index::IdSetDense<unsigned long, 22>'
 DENSE32 = 'osmium::index::IdSetDense<unsigned int, 22>'
 SEGNS = 'osmium::area::detail::'
+DELTA = 'osmium::util::'
+KV32 = 'osmium::index::detail::flat_map<unsigned long, unsigned int, unsigned long, unsigned int>::kv_pair'
+KV64 = 'osmium::index::detail::flat_map<unsigned long, unsigned long, unsigned long, unsigned long>::kv_pair'
+MDB = 'osmium::relations::MembersDatabaseCommon::'
 
 # fn = qualified name; sig = substring of the function type (overloads); local / cond = extraction;
 # name = Lean name of an extracted expression
@@ -98,6 +117,48 @@ TARGETS = [
     dict(fn='osmium::Location::Location', sig='void () noexcept'),
     dict(fn='osmium::geom::num_tiles_in_zoom'),
     dict(fn='osmium::geom::Tile::valid'),
+    # ---- phase 2: the imperative subset (x2l_st.py) ----
+    dict(fn='osmium::handler::CheckOrder::node'),
+    dict(fn='osmium::handler::CheckOrder::way'),
+    dict(fn='osmium::handler::CheckOrder::relation'),
+    dict(fn='osmium::handler::CheckOrder::max_node_id'),
+    dict(fn='osmium::handler::CheckOrder::max_way_id'),
+    dict(fn='osmium::handler::CheckOrder::max_relation_id'),
+    dict(fn=DELTA + 'DeltaEncode<long, long>::update'),
+    dict(fn=DELTA + 'DeltaEncode<unsigned int, long>::update'),
+    dict(fn=DELTA + 'DeltaEncode<unsigned int, int>::update'),
+    dict(fn=DELTA + 'DeltaEncode<int, int>::update'),
+    dict(fn=DELTA + 'DeltaDecode<long, long>::update'),
+    dict(fn=DELTA + 'DeltaEncode<long, long>::clear'),
+    dict(fn=DELTA + 'DeltaDecode<long, long>::clear'),
+    dict(fn='osmium::memory::Buffer::commit'),
+    dict(fn='osmium::memory::Buffer::rollback'),
+    dict(fn='osmium::memory::Buffer::clear'),
+    dict(fn='osmium::memory::Buffer::written'),
+    dict(fn='osmium::memory::Buffer::committed'),
+    dict(fn='osmium::memory::Buffer::capacity'),
+    dict(fn='osmium::memory::Buffer::is_aligned'),
+    dict(fn='osmium::memory::Buffer::reserve_space', cond=0, name='reserve_space_cond_full'),
+    dict(fn='osmium::memory::Buffer::reserve_space', cond=2, name='reserve_space_cond_grow_internal'),
+    dict(fn='osmium::memory::Buffer::reserve_space', cond=3, name='reserve_space_cond_still_full'),
+    dict(fn='osmium::memory::Buffer::reserve_space', local='new_capacity', name='reserve_space_new_capacity'),
+    dict(fn='osmium::memory::Buffer::reserve_space', loop=0, name='reserve_space_loop_double'),
+    dict(fn='osmium::item_type_to_char'),
+    dict(fn='osmium::char_to_item_type'),
+    dict(fn='osmium::item_type_to_nwr_index'),
+    dict(fn='osmium::nwr_index_to_item_type'),
+    dict(fn='osmium::io::detail::opl_parse_relation_members', cond=1, name='opl_member_type_unknown'),
+    dict(fn=KV32 + '::operator<'), dict(fn=KV32 + '::operator=='), dict(fn=KV32 + '::kv_pair', sig='key_type, const'),
+    dict(fn=KV64 + '::operator<'), dict(fn=KV64 + '::operator=='), dict(fn=KV64 + '::kv_pair', sig='key_type, const'),
+    dict(fn='osmium::index::RelationsMapIndex::for_each', cond=1, name='for_each_cond_id_above_32bit'),
+    dict(fn='osmium::index::RelationsMapStash::add', cond=0, name='add_cond_fits_32bit'),
+    dict(fn=MDB + 'element::operator<'), dict(fn=MDB + 'element::is_removed'), dict(fn=MDB + 'element::remove'),
+    dict(fn=MDB + 'compare_member_id::operator()'),
+    dict(fn='osmium::OSMObject::set_version', sig='(osmium::object_version_type)'),
+    dict(fn='osmium::OSMObject::set_deleted'), dict(fn='osmium::OSMObject::set_visible', sig='(bool)'),
+    dict(fn='osmium::io::detail::DenseNodes::size'),
+    dict(fn='osmium::io::detail::PrimitiveBlock::can_add', opaque=['osmium::io::detail::PrimitiveBlock::size']),
+    dict(fn='osmium::io::detail::PrimitiveBlock::count'),
 ]
 
 
@@ -112,7 +173,7 @@ def _sha(b):
 def _self_hash():
     h = hashlib.sha256()
     d = os.path.dirname(os.path.abspath(__file__))
-    for f in ('cxx2lean.py', 'x2l_ast.py', 'x2l_tr.py', 'x2l_ex.py'):
+    for f in ('cxx2lean.py', 'x2l_ast.py', 'x2l_tr.py', 'x2l_ex.py', 'x2l_st.py'):
         with open(os.path.join(d, f), 'rb') as fh:
             h.update(fh.read())
     return h.hexdigest()
@@ -145,11 +206,41 @@ def _walk_stmts(n, out, kind):
             out.append(c)
 
 
+def _walk_all(n):
+    yield n
+    for c in n.get('inner', []) or []:
+        if c and (not c.get('kind', '').endswith('Decl') or c.get('kind') == 'VarDecl'):
+            for x in _walk_all(c):
+                yield x
+
+
 def translate_target(tr, t):
     f = tr.ix.find_function(t['fn'], t.get('sig'))
-    if 'local' not in t and 'cond' not in t:
+    if 'local' not in t and 'cond' not in t and 'loop' not in t:
         return tr.fn_item(f)
     body = [c for c in f['inner'] if c.get('kind') == 'CompoundStmt'][0]
+    parent = f.get('_parent')
+    is_method = f['kind'] == 'CXXMethodDecl' and f.get('storageClass') != 'static' and parent is not None
+    if 'loop' in t:
+        loops = [x for x in _walk_all(body) if x.get('kind') in ('WhileStmt', 'ForStmt')]
+        if t['loop'] >= len(loops):
+            raise Unsupported('%s has only %d loops (loop %d requested)' % (t['fn'], len(loops), t['loop']))
+        lp = loops[t['loop']]
+        inn = lp.get('inner', [])
+        if lp['kind'] == 'WhileStmt':
+            if lp.get('hasVar') or len(inn) != 2:
+                raise Unsupported('%s: while with a condition variable' % t['fn'])
+            cond, lbody = inn[0], [inn[1]]
+        else:
+            if len(inn) != 5 or inn[1] or not inn[2]:
+                raise Unsupported('%s: for statement with a condition variable / without a condition' % t['fn'])
+            cond, lbody = inn[2], [inn[4]] + ([inn[3]] if inn[3] else [])
+        env = Env(Ty('rec', rec=parent) if is_method else None, extract=True)
+        env.used.update(['self', 'fuel'])
+        lp.setdefault('_file', f['_file'])
+        it, params, modified = tr.loop_def(cond, lbody, env, f, t['name'], lp, ' (loop #%d of %s as a function of the variables it reads; '
+                                           'result: the variables it modifies)' % (t['loop'], f['_q']))
+        return it
     if 'local' in t:
         vs = []
         _walk_stmts(body, vs, 'VarDecl')
@@ -168,8 +259,6 @@ def translate_target(tr, t):
             raise Unsupported('%s has only %d if statements (condition %d requested)' % (t['fn'], len(ifs), t['cond']))
         expr, what = ifs[t['cond']]['inner'][0], ' (condition of if #%d in %s)' % (t['cond'], f['_q'])
         want = None
-    parent = f.get('_parent')
-    is_method = f['kind'] == 'CXXMethodDecl' and f.get('storageClass') != 'static' and parent is not None
     env = Env(Ty('rec', rec=parent) if is_method else None, extract=True)
     env.used.add('self')
     e = tr.ex(expr, env)
@@ -207,7 +296,8 @@ def translate(inc):
     dump, deps, cmd = run_clang(inc)
     ix = Index(load_objects(dump))
     del dump
-    tr = FullTranslator(ix, Sources(), inc)
+    tr = ImpTranslator(ix, Sources(), inc)
+    tr.opaque_for = {t['fn']: set(t['opaque']) for t in TARGETS if t.get('opaque')}
     funcs, failures = [], []
     for t in TARGETS:
         label = t.get('name') or t['fn']
@@ -285,8 +375,9 @@ def regen(ctx=None):
         raise
     changed = vlib.write_if_changed(GEN, res['lean'])
     if ctx is not None:
-        note = ('tools/cxx2lean.py (+ x2l_ast/x2l_tr/x2l_ex.py): clang 14 typed AST -> Lean translation of the small pure functions '
-                'behind the src_tie_* theorems, with the operator semantics of lean/Osmium/Model/CxxSem.lean '
+        note = ('tools/cxx2lean.py (+ x2l_ast/x2l_tr/x2l_ex/x2l_st.py): clang 14 typed AST -> Lean translation of the small functions '
+                '(pure ones and state transformers over the members of *this) behind the src_tie_* theorems, with the operator / '
+                'outcome semantics of lean/Osmium/Model/CxxSem.lean '
                 '(cross-checked against the compiled code by tools/x2l_selftest.py)')
         if note not in ctx.trusted:
             ctx.trusted.append(note)
